@@ -236,6 +236,15 @@ pub fn coset_table(
             break;
         }
 
+        // Entries of this row that earlier deductions and coincidences have
+        // made forced are filled in before new cosets are defined for it.
+        if i == table.canon(i) {
+            for w in &rels {
+                let c = table.canon(i);
+                scan_and_connect(&mut table, w, c);
+            }
+        }
+
         for g in table.all_gens() {
             if i != table.canon(i) {
                 break;
